@@ -9,6 +9,7 @@ import (
 	"net/http"
 	"slices"
 	"strings"
+	"sync"
 
 	"github.com/issue9/mux/v9/types"
 )
@@ -32,6 +33,8 @@ var (
 	methodIndexMap map[string]int // 各个请求方法对应的数值
 
 	methodIndexes = map[int]methodIndexEntity{}
+
+	methodIndexesLocker sync.RWMutex // methodIndexes 由进程内所有的 Tree 共享
 )
 
 const methodNotAllowed = "" // 表示 405 的处理方法在各个节点上的名称。
@@ -49,6 +52,9 @@ type methodIndexEntity struct {
 }
 
 func buildMethodIndexes(index int) {
+	methodIndexesLocker.Lock()
+	defer methodIndexesLocker.Unlock()
+
 	if _, found := methodIndexes[index]; found {
 		return
 	}
@@ -78,10 +84,16 @@ func (n *node[T]) buildMethods() {
 	buildMethodIndexes(n.methodIndex)
 }
 
-func (n *node[T]) AllowHeader() string { return methodIndexes[n.methodIndex].options }
+func (n *node[T]) AllowHeader() string { return n.methodEntity().options }
 
 // Methods 当前节点支持的请求方法
-func (n *node[T]) Methods() []string { return methodIndexes[n.methodIndex].methods }
+func (n *node[T]) Methods() []string { return n.methodEntity().methods }
+
+func (n *node[T]) methodEntity() methodIndexEntity {
+	methodIndexesLocker.RLock()
+	defer methodIndexesLocker.RUnlock()
+	return methodIndexes[n.methodIndex]
+}
 
 // 添加一个处理函数
 func (n *node[T]) addMethods(h T, pattern string, ms []types.Middleware[T], methods ...string) error {
